@@ -79,6 +79,11 @@ def main(prop, deciding_counters, quick_cases=90, thorough_cases=2500, assumptio
             for restriction in SHIPPED:
                 cases.append({"restriction": restriction, "vm_strs": dict(vm_strs), "nets": "net1 net2", "params": {"shared_pool": "/mnt/local/images/shared"},
                               "suite": "shipped", "twice": False, "lazy": True})
+        # a vm restriction spelled like one alternative of a test's own OR-restriction (tutorial_gui: only_vm1 = qemu_kvm_centos,
+        # qemu_kvm_fedora): it must narrow the lazily expanded tests exactly as it narrows the up-front graph
+        for restriction in ("leaves..tutorial_gui", "leaves..tutorial_get.explicit_noop"):
+            cases.append({"restriction": restriction, "vm_strs": {"vm1": "only qemu_kvm_centos\n", "vm2": "only Win10\n", "vm3": "only Ubuntu\n"},
+                          "nets": "net1", "params": {"shared_pool": "/mnt/local/images/shared"}, "suite": "shipped", "twice": False, "lazy": True})
     for case in cases:
         case["oracles"] = [prop]
     budget = args.budget or (None if args.replay else (900 if args.tier == "quick" else 3 * 3600))
